@@ -314,7 +314,7 @@ def check_header(case, stats):
     if active and name not in DIALECTS:
         col = lead_ws(hdr) + 1
         want0 = (hline, col, "(%d:%d): Language not supported: %s" % (hline, col, name))
-        if r[0] == "ok" or want0 not in r[1] or sum(1 for e in r[1] if "Language not supported" in e[2]) != 1:
+        if r[0] == "ok" or r[1] != [want0]:
             raise Violation(case, "unknown dialect %r in header %r: expected exactly one error %r, got %r" % (name, hdr, want0, r[1] if r[0] != "ok" else "accepted"))
     else:
         if r[0] != "ok":
